@@ -15,8 +15,15 @@ import (
 	"strings"
 	"sync/atomic"
 
+	"net"
+	"time"
+
 	"github.com/openconfig/gribigo/rib"
 	"github.com/openconfig/gribigo/rib/reconciler"
+	"github.com/openconfig/gribigo/server"
+	"google.golang.org/grpc"
+	"google.golang.org/grpc/credentials/insecure"
+	"google.golang.org/grpc/test/bufconn"
 
 	aftpb "github.com/openconfig/gribi/v1/proto/gribi_aft"
 	spb "github.com/openconfig/gribi/v1/proto/service"
@@ -99,7 +106,11 @@ func (s *reconSide) build() (*rib.RIB, error) {
 			if v == 0 {
 				continue
 			}
-			// variant: group 1..3 in the entry's own instance (1..3), or group 1/2 of DEFAULT (4, 5)
+			// variant: group 1..3 in the entry's own instance (1..3), or group 1/2 of DEFAULT (4, 5);
+			// 6..10 the same with a decapsulate header (IPv4 / IPv6 entries) or a popped label stack
+			// (label entries); 11..15 the same with entry metadata
+			extra := (v - 1) / 5
+			v = 1 + (v-1)%5
 			grp := uint64(1 + (v-1)%3)
 			gni := ""
 			if v >= 4 {
@@ -120,6 +131,26 @@ func (s *reconSide) build() (*rib.RIB, error) {
 				var l uint64
 				fmt.Sscan(val, &l)
 				op.Entry = &spb.AFTOperation_Mpls{Mpls: &aftpb.Afts_LabelEntryKey{Label: &aftpb.Afts_LabelEntryKey_LabelUint64{LabelUint64: l}, LabelEntry: &aftpb.Afts_LabelEntry{NextHopGroup: uv(grp), NextHopGroupNetworkInstance: gniV}}}
+			}
+			switch e := op.Entry.(type) {
+			case *spb.AFTOperation_Ipv4:
+				if extra == 1 {
+					e.Ipv4.Ipv4Entry.DecapsulateHeader = hdrIPV4
+				} else if extra == 2 {
+					e.Ipv4.Ipv4Entry.EntryMetadata = &wpb.BytesValue{Value: []byte("meta")}
+				}
+			case *spb.AFTOperation_Ipv6:
+				if extra == 1 {
+					e.Ipv6.Ipv6Entry.DecapsulateHeader = hdrMPLS
+				} else if extra == 2 {
+					e.Ipv6.Ipv6Entry.EntryMetadata = &wpb.BytesValue{Value: []byte("meta")}
+				}
+			case *spb.AFTOperation_Mpls:
+				if extra == 1 {
+					e.Mpls.LabelEntry.PoppedMplsLabelStack = []*aftpb.Afts_LabelEntry_PoppedMplsLabelStackUnion{{PoppedMplsLabelStackUint64: 300}}
+				} else if extra == 2 {
+					e.Mpls.LabelEntry.EntryMetadata = &wpb.BytesValue{Value: []byte("meta")}
+				}
 			}
 			add(op)
 		}
@@ -194,7 +225,7 @@ func genReconPair(r *rand.Rand, equal bool) (*reconSide, *reconSide) {
 			T.nhg[ni][g] = b
 		}
 		for _, k := range reconTops {
-			a, b := draw(5)
+			a, b := draw(15)
 			if inI {
 				I.top[ni][k] = a
 			}
@@ -228,6 +259,33 @@ func ribViaGet(r *rib.RIB, dflt string) (*rib.RIB, error) {
 		}
 	}
 	return rib.FromGetResponses(dflt, resps, rib.DisableRIBCheckFn())
+}
+
+// ribViaRemote serves r from a real server (server.NewFake + InjectRIB) over an in-memory gRPC
+// connection and reads it back the way a remote reconciliation target is read: RemoteRIB.Get.
+func ribViaRemote(r *rib.RIB, dflt string) (*rib.RIB, error) {
+	fs, err := server.NewFake()
+	if err != nil {
+		return nil, err
+	}
+	fs.InjectRIB(r)
+	lis := bufconn.Listen(1 << 20)
+	gs := grpc.NewServer()
+	spb.RegisterGRIBIServer(gs, fs)
+	go gs.Serve(lis)
+	defer gs.Stop()
+	conn, err := grpc.NewClient("passthrough:///bufnet", grpc.WithContextDialer(func(ctx context.Context, _ string) (net.Conn, error) { return lis.DialContext(ctx) }), grpc.WithTransportCredentials(insecure.NewCredentials()))
+	if err != nil {
+		return nil, err
+	}
+	defer conn.Close()
+	rr, err := reconciler.NewRemoteRIBWithStub(dflt, spb.NewGRIBIClient(conn))
+	if err != nil {
+		return nil, err
+	}
+	ctx, cancel := context.WithTimeout(context.Background(), 20*time.Second)
+	defer cancel()
+	return rr.Get(ctx)
 }
 
 func reconCase(seed uint64, idx int) *CaseSpec {
@@ -271,6 +329,22 @@ func reconCase(seed uint64, idx int) *CaseSpec {
 				same = "0"
 			}
 			t.Add("rc.roundtrip %s %s", same, S(""))
+		}
+		if idx%2 == 0 {
+			// the same through a real server and reconciler.RemoteRIB
+			if back, err := ribViaRemote(T, sT.nis[0]); err != nil {
+				t.Add("rc.roundtrip 0 %s", S("RemoteRIB.Get: "+err.Error()))
+			} else {
+				lb, _, err := entsLine(back)
+				if err != nil {
+					return t, err
+				}
+				same, msg := "1", ""
+				if lb != lt {
+					same, msg = "0", "RemoteRIB.Get of a server holding the target returns other contents"
+				}
+				t.Add("rc.roundtrip %s %s", same, S(msg))
+			}
 		}
 		var id atomic.Uint64
 		id.Store(base)
